@@ -84,3 +84,10 @@ $E C19 rename-initspec-locals cmd/swagger/commands/initcmd/spec.go 's/\binfo\b/m
 for id in C07 C08 C10; do $E $id rename-planning-locals generator/support.go 's/\boperationNames\b/sortedOps/g' 's/\breread\b/decoded/g' 's/\borig\b/original/g' 's/\bmodelNames\b/sortedModels/g'; done
 $E C15 rename-analysedefinitions-locals cmd/swagger/commands/diff/spec_analyser.go 's/\bnames1\b/oldNames/g' 's/\bname1\b/oldName/g'
 $E C11 rename-configureopts-locals generator/config.go 's/\bopts\b/options/g'
+# round 12
+$E C01 rename-items-locals generator/operation.go 's/\bnext\b/following/g' 's/\bcIndex\b/childIndex/g'
+$E C08 rename-analyzetags-locals generator/operation.go 's/\bintersected\b/selected/g' 's/\bfilter\b/wanted/g'
+$E C08 rename-alias-locals generator/support.go 's/\baliasUsed\b/taken/g' 's/\bpth\b/importedAs/g'
+$E C17 rename-discovered-locals codescan/spec.go 's/\bqueue\b/pending/g' 's/\bnm\b/defName/g'
+for id in C16 C18; do $E $id rename-stringable-locals codescan/schema.go 's/\btpe ast.Expr\b/expr ast.Expr/' 's/switch t := tpe.(type) {/switch t := expr.(type) {/'; done
+$E C05 reorder-number-formats generator/formats.go 's/^\t\t"double": "float64",$/\t\t"double": "float64", \/\/ IEEE 754 binary64/'
